@@ -573,7 +573,10 @@ static void c09_tests()
     put(3072, 222);
     put(SIZE - (long)sizeof(GI), 333);
     for (auto script : std::vector<std::vector<W>>{ { 2048, 3072 }, { 3072, 2048 }, { 2048, 0 }, { 0, 2048 }, { 2048, SIZE - (long)sizeof(GI) },
-                                                    { 2048, SIZE - 2 }, { SIZE - 1, 2048 }, { 3072 } }) {
+                                                    { 2048, SIZE - 2 }, { SIZE - 1, 2048 }, { 3072 },
+                                                    // three reads: null test, checked read, a further read at the use
+                                                    { 2048, 3072, SIZE - 2 }, { 2048, 2048, SIZE - 1 }, { 3072, 2048, 2048, SIZE - 2 },
+                                                    { 2048, 3072, 3072, SIZE - 1 } }) {
       W seen = -7777, used = -7777;
       int calls = 0;
       cell.arm(script);
